@@ -424,3 +424,164 @@ pub proof fn lemma_many0_filter<'a>(i: &'a [u8], r: IResult<&'a [u8], Seq<Tag>>)
         }
     }
 }
+
+// ------------------------------------------------------------------ equality / presence / substring helpers
+pub open spec fn vv(s: Seq<Vec<u8>>) -> Seq<Seq<u8>> { s.map_values(|x: Vec<u8>| x@) }
+// std iterator idioms in `eq` that this Verus cannot take (Enumerate is unsupported), replaced by recorded substitutions:
+//   `v.iter().enumerate().fold(false, |acc, (n, ve)| acc || ve.is_empty() && n + 1 != v.len())`
+//       = some piece other than the last one is empty
+#[verifier::external_body]
+pub fn verif_any_empty_before_last(v: &Vec<Vec<u8>>) -> (b: bool) ensures b == empty_before_last(vv(v@)) { unimplemented!() }
+//   `.into_iter().enumerate()` yields (index, element) in order
+#[verifier::external_body]
+pub fn verif_enumerate(v: Vec<Vec<u8>>) -> (r: Vec<(usize, Vec<u8>)>)
+    ensures r@.len() == v@.len(), forall|j: int| 0 <= j < v@.len() ==> (#[trigger] r@[j]).0 == j && r@[j].1 == v@[j]
+{ unimplemented!() }
+
+// what `preceded(tag(b"*"), unescaped)` does, as a relation (the parser value itself is anonymous)
+pub open spec fn den_star<'a>() -> spec_fn(&'a [u8], IResult<&'a [u8], Vec<u8>>) -> bool {
+    |j: &'a [u8], x: IResult<&'a [u8], Vec<u8>>|
+        if starts_with(j@, s_star()) {
+            match lx_unescaped(j@.skip(1)) {
+                Some(d) => 0 <= d.0 <= j@.len() - 1 && (x matches Ok(p) && p.0@ == j@.skip(1).skip(d.0) && p.1@ == d.1),
+                None => x is Err,
+            }
+        } else { x is Err }
+}
+pub open spec fn stars_rel<'a>(rr: IResult<&'a [u8], Seq<Vec<u8>>>, i: &'a [u8], d: Option<(int, Seq<Seq<u8>>)>) -> bool {
+    match d { Some(y) => 0 <= y.0 <= i@.len() && (rr matches Ok(p) && p.0@ == i@.skip(y.0) && vv(p.1) == y.1), None => rr is Err }
+}
+pub proof fn lemma_stars<'a>(i: &'a [u8], r: IResult<&'a [u8], Seq<Vec<u8>>>)
+    requires m0_res(den_star(), i, r),
+    ensures stars_rel(r, i, d_stars(i@)),
+    decreases i@.len(),
+{
+    let den = den_star();
+    let pr = choose|pr: IResult<&'a [u8], Vec<u8>>| #[trigger] wit(pr) && m0_step(den, i, r, pr);
+    match pr {
+        Err(_) => { assert(i@.skip(0) =~= i@); assert(vv(Seq::<Vec<u8>>::empty()) =~= Seq::<Seq<u8>>::empty()); }
+        Ok(q) => {
+            let d = lx_unescaped(i@.skip(1))->0;
+            assert(q.0@ =~= i@.skip(1 + d.0));
+            if q.0@.len() >= i@.len() { } else {
+                let rr = choose|rr: IResult<&'a [u8], Seq<Vec<u8>>>| #[trigger] wit(rr) && m0_tail(den, i, r, q, rr);
+                lemma_stars(q.0, rr);
+                match rr {
+                    Err(_) => {}
+                    Ok(t) => {
+                        let y = d_stars(i@.skip(1 + d.0))->0;
+                        assert(vv(seq![q.1] + t.1) =~= seq![d.1] + y.1);
+                        assert(t.0@ =~= i@.skip(1 + d.0 + y.0));
+                    }
+                }
+            }
+        }
+    }
+}
+pub proof fn lemma_trees_push(s: Seq<Tag>, x: Tag)
+    ensures trees(s.push(x), (s.len() + 1) as nat) == trees(s, s.len()).push(tree(x))
+{
+    let l = s.push(x);
+    lemma_trees_len(l, l.len());
+    lemma_trees_len(s, s.len());
+    assert(trees(l, l.len()) =~= trees(s, s.len()).push(tree(x)));
+}
+
+// ------------------------------------------------------------------ matched-values filter (RFC 3876 section 3):
+// ValuesReturnFilter ::= SEQUENCE OF SimpleFilterItem;  string form  "(" 1*( "(" item ")" ) ")"
+pub open spec fn d_mv_item(i: Seq<u8>) -> Option<(int, T)> {
+    if !starts_with(i, s_lp()) { None } else {
+        match d_item(i.skip(1)) {
+            None => None,
+            Some(x) => if 0 <= x.0 <= i.len() - 1 && starts_with(i.skip(1).skip(x.0), s_rp()) { Some((1 + x.0 + 1, x.1)) } else { None },
+        }
+    }
+}
+pub open spec fn d_mv_items0(i: Seq<u8>) -> Option<(int, Seq<T>)> decreases i.len() {
+    match d_mv_item(i) {
+        None => Some((0int, Seq::<T>::empty())),
+        Some(x) => if x.0 <= 0 || x.0 > i.len() { None } else {
+            match d_mv_items0(i.skip(x.0)) { None => None, Some(y) => Some((x.0 + y.0, seq![x.1] + y.1)) } },
+    }
+}
+pub open spec fn d_mv_items(i: Seq<u8>) -> Option<(int, Seq<T>)> {
+    match d_mv_item(i) {
+        None => None,
+        Some(x) => if x.0 <= 0 || x.0 > i.len() { None } else {
+            match d_mv_items0(i.skip(x.0)) { None => None, Some(y) => Some((x.0 + y.0, seq![x.1] + y.1)) } },
+    }
+}
+pub open spec fn d_mv_filterlist(i: Seq<u8>) -> Option<(int, T)> {
+    match d_mv_items(i) { Some(x) => Some((x.0, t_seq(x.1))), None => None }
+}
+pub open spec fn d_mv_filtexpr(i: Seq<u8>) -> Option<(int, T)> {
+    if !starts_with(i, s_lp()) { None } else {
+        match d_mv_filterlist(i.skip(1)) {
+            None => None,
+            Some(x) => if 0 <= x.0 <= i.len() - 1 && starts_with(i.skip(1).skip(x.0), s_rp()) { Some((1 + x.0 + 1, x.1)) } else { None },
+        }
+    }
+}
+// what `delimited(tag(b"("), item, tag(b")"))` does, as a relation (needs `item`'s contract: stated over any parser result)
+pub open spec fn den_mv_item<'a>() -> spec_fn(&'a [u8], IResult<&'a [u8], Tag>) -> bool {
+    |j: &'a [u8], x: IResult<&'a [u8], Tag>|
+        match d_mv_item(j@) {
+            Some(d) => 0 <= d.0 <= j@.len() && (x matches Ok(p) && p.0@ == j@.skip(1).skip(d.0 - 2).skip(1) && tree(p.1) == d.1),
+            None => x is Err,
+        }
+}
+pub proof fn lemma_mv_items0<'a>(i: &'a [u8], r: IResult<&'a [u8], Seq<Tag>>)
+    requires m0_res(den_mv_item(), i, r),
+    ensures list_denotes(r, i, d_mv_items0(i@)),
+    decreases i@.len(),
+{
+    let den = den_mv_item();
+    let pr = choose|pr: IResult<&'a [u8], Tag>| #[trigger] wit(pr) && m0_step(den, i, r, pr);
+    match pr {
+        Err(_) => { assert(i@.skip(0) =~= i@); }
+        Ok(q) => {
+            let x = d_mv_item(i@)->0;
+            assert(q.0@ =~= i@.skip(x.0));
+            if q.0@.len() >= i@.len() { } else {
+                let rr = choose|rr: IResult<&'a [u8], Seq<Tag>>| #[trigger] wit(rr) && m0_tail(den, i, r, q, rr);
+                lemma_mv_items0(q.0, rr);
+                match rr {
+                    Err(_) => {}
+                    Ok(t) => {
+                        let y = d_mv_items0(i@.skip(x.0))->0;
+                        lemma_trees_prepend(q.1, t.1);
+                        assert(t.0@ =~= i@.skip(x.0 + y.0));
+                    }
+                }
+            }
+        }
+    }
+}
+pub proof fn lemma_mv_items<'a>(i: &'a [u8], r: IResult<&'a [u8], Seq<Tag>>)
+    requires m1_res(den_mv_item(), i, r),
+    ensures list_denotes(r, i, d_mv_items(i@)),
+{
+    let den = den_mv_item();
+    let pr = choose|pr: IResult<&'a [u8], Tag>| #[trigger] wit(pr) && den(i, pr) && (match pr {
+        Err(_) => r is Err,
+        Ok(q) => if q.0@.len() >= i@.len() { r is Err } else { exists|rr: IResult<&'a [u8], Seq<Tag>>| #[trigger] wit(rr) && m0_tail(den, i, r, q, rr) } });
+    match pr {
+        Err(_) => { }
+        Ok(q) => {
+            let x = d_mv_item(i@)->0;
+            assert(q.0@ =~= i@.skip(x.0));
+            if q.0@.len() >= i@.len() { } else {
+                let rr = choose|rr: IResult<&'a [u8], Seq<Tag>>| #[trigger] wit(rr) && m0_tail(den, i, r, q, rr);
+                lemma_mv_items0(q.0, rr);
+                match rr {
+                    Err(_) => {}
+                    Ok(t) => {
+                        let y = d_mv_items0(i@.skip(x.0))->0;
+                        lemma_trees_prepend(q.1, t.1);
+                        assert(t.0@ =~= i@.skip(x.0 + y.0));
+                    }
+                }
+            }
+        }
+    }
+}
